@@ -8,7 +8,7 @@ for l in open('/verif/work/seeded_results.jsonl'):
     r = json.loads(l)
     trials.setdefault(re.sub(r'-retest\d*$', '', r['name']), []).append(r)
     r['_retest'] = bool(re.search(r'-retest\d*$', r['name']))
-for d in sorted(glob.glob('/verif/seeded/C*-[AB]') + glob.glob('/verif/seeded/R2C*-[AB]')):
+for d in sorted(glob.glob('/verif/seeded/C*-[AB]') + glob.glob('/verif/seeded/R[23]C*-[AB]')):
     m = json.load(open(d + '/meta.json'))
     name = os.path.basename(d)
     det = m.get('detected_by', [])
@@ -16,7 +16,7 @@ for d in sorted(glob.glob('/verif/seeded/C*-[AB]') + glob.glob('/verif/seeded/R2
     first_caught = any(x['exit'] == 1 for t in ts if not t['_retest'] for x in t['results'].values())
     d_txt = '; '.join(f"{x['property']}: {', '.join(sorted(set(x['labels']))[:3])}" for x in det) or '**not detected**'
     if det and first_caught:
-        own = name.replace('R2', '').split('-')[0]
+        own = re.sub(r'^R[23]', '', name).split('-')[0]
         status = 'caught' if any(x['property'] == own for x in det) else 'caught (by a sibling property\'s check)'
     elif det:
         status = 'missed at first, check strengthened'
